@@ -452,6 +452,9 @@ class Report:
     def finish(self, extra_coverage=None, inconclusive=None):
         os.makedirs(os.path.join(VERIF, "evidence"), exist_ok=True)
         os.makedirs(os.path.join(VERIF, "replays"), exist_ok=True)
+        import glob as _glob
+        for old in _glob.glob(os.path.join(VERIF, "replays", self.pid + "-*.json")):
+            os.remove(old)
         cov = dict(self.coverage)
         if extra_coverage:
             cov.update(extra_coverage)
@@ -471,7 +474,7 @@ class Report:
                 ex = self.known[f["id"]][0]
                 print("KNOWN-FINDING: property=%s %s [%s; %d case(s) this run, e.g. %s]" % (
                     self.pid, f["what"], f["id"], len(self.known[f["id"]]),
-                    json.dumps(ex.get("short", ex), ensure_ascii=False)[:200]))
+                    json.dumps(ex.get("short", ex))[:200]))
         if inconclusive:
             print("INCONCLUSIVE property=%s %s" % (self.pid, inconclusive))
             return 2
@@ -487,7 +490,7 @@ class Report:
                                "cases": vs[:50]}, f, indent=1, ensure_ascii=False, default=str)
                 print("VIOLATION property=%s replay=%s" % (self.pid, path))
                 print("  %d case(s), e.g. %s" % (
-                    len(vs), json.dumps(vs[0].get("short", vs[0]), ensure_ascii=False)[:300]))
+                    len(vs), json.dumps(vs[0].get("short", vs[0]))[:300]))
             return 1
         print("OK property=%s tier=%s %s" % (self.pid, tier(), json.dumps(
             {k: v for k, v in cov.items() if isinstance(v, (int, float, bool))})))
